@@ -341,7 +341,10 @@ impl Drawable<'_> {
     }
 
     pub(crate) fn clear(mut self) -> io::Result<()> {
-        let state = self.state();
+        let mut state = self.state();
+        // Nothing remains that could be aligned: do not replace the erased lines by blank ones,
+        // whatever is printed next (e.g. by the closure passed to `suspend`) comes right here.
+        state.alignment = MultiProgressAlignment::Top;
         drop(state);
         self.draw()
     }
